@@ -6,7 +6,7 @@ from harness.props import common
 def run(ctx):
     ctx.rule = ("generated loop nests (depth <= 3) over lists, sets, maps (keys/values/entries) and strings with break/continue/return at every statement position, while loops, if/elif/else chains and every comprehension form; in-program trace; non-trivial = a loop with an exit statement or a comprehension over a set/map; each program is run on the implementation, on a reference interpreter written from the language rules "
                 "(value + printed trace must match) and on the Lean model evaluator")
-    progcheck.run_profiles(ctx, ["control", "mixed"], 700 if ctx.thorough else 130)
+    progcheck.run_profiles(ctx, ["control", "mixed"], 3000 if ctx.thorough else 500)
     common.replay_known(ctx)
 
 
